@@ -94,7 +94,7 @@ theorem rateAt_eq (g : Graph) (src dst : String) (t : Q) :
   unfold rateAt ratePred
   split <;> simp [*]
 
-theorem rateAt_eq_sum {g : Graph} (hf : ValidFacts g) (src dst : String) (t : Q) :
+theorem rateAt_eq_sum {g : Graph} (hf : MigFacts g) (src dst : String) (t : Q) :
     rateAt g src dst t = qsumS ((g.migrations.filter (ratePred src dst t)).map (·.rate)) := by
   rw [qsumS_filter_unique, rateAt_eq]
   · refine List.Pairwise.imp ?_ hf.disj
@@ -139,7 +139,7 @@ theorem sum_by_source {g : Graph} (hn : (g.demes.map (·.name)).Nodup) (dst : St
     · rfl
     · rw [Rat.zero_add]
 
-theorem ingress_eq {g : Graph} (hf : ValidFacts g) (dst : String) (t : Q) :
+theorem ingress_eq {g : Graph} (hf : MigFacts g) (dst : String) (t : Q) :
     qsumS (g.demes.map (fun dj => rateAt g dj.name dst t)) = ingressAt g dst t := by
   have : (fun dj : Deme => rateAt g dj.name dst t)
       = fun dj : Deme => qsumS ((g.migrations.filter (ratePred dj.name dst t)).map (·.rate)) := by
@@ -168,5 +168,34 @@ theorem row_eq {n : Nat} {mm : Matrix} (hs : Shape n mm) {i : Nat} {row : List Q
   · simp [hlen]
   · intro j h1 h2
     simp [Matrix.get, List.getD_eq_getElem?_getD, hr, h1]
+
+/-- row `i` of matrix `k` sums to the total ingress into deme `i` at the end time `ends[k]`
+(from V1, V6, V8, V9 only) -/
+theorem row_sum_of_facts {g : Graph} (hf : MigFacts g) {mms : List Matrix} {ends : List Q}
+    (h : migrationMatrices g = .ok (mms, ends)) {k i : Nat} {e : Q} {mm : Matrix} {row : List Q}
+    {di : Deme} (he : ends[k]? = some e) (hmm : mms[k]? = some mm) (hrow : mm[i]? = some row)
+    (hi : g.demes[i]? = some di) :
+    rowSum row = ingressAt g di.name e := by
+  obtain ⟨mms0, h0, hl, hsh, hget⟩ := mm_main g hf
+  obtain ⟨_, _, hp, hmem⟩ := mmEndTimes_props g.migrations (times_nonneg hf)
+  rw [h0] at h
+  simp only [Except.ok.injEq, Prod.mk.injEq] at h
+  obtain ⟨rfl, rfl⟩ := h
+  obtain ⟨hklt, rfl⟩ := List.getElem?_eq_some_iff.mp he
+  have hs := hsh mm (List.mem_of_getElem? hmm)
+  have hrow_eq : row = g.demes.map (fun dj => rateAt g dj.name di.name (mmEndTimes g.migrations)[k]) := by
+    rw [row_eq hs hrow]
+    apply List.ext_getElem
+    · simp
+    · intro j h1 h2
+      simp only [List.length_map, List.length_range] at h1
+      simp only [List.getElem_map, List.getElem_range]
+      exact entry_eq hf hp hmem hget (intervalOf_self hp hklt) hmm hi (List.getElem?_eq_getElem h1)
+  rw [rowSum_eq, hrow_eq, ingress_eq hf]
+
+theorem mem_boundaries_iff {g : Graph} {x : Q} :
+    x ∈ boundaries g ↔ (x ∈ migrationTimes g.migrations ∨ x = 0) := by
+  simp only [boundaries, List.mem_cons, List.mem_append, migrationTimes]
+  grind
 
 end Demes.Proofs
